@@ -5,6 +5,7 @@ go 1.21
 require (
 	github.com/LiskHQ/lisk-engine v0.0.0
 	github.com/anishathalye/porcupine v1.3.0
+	github.com/cockroachdb/pebble v0.0.0-20221021145029-f34af25a0187
 	go.etcd.io/gofail v0.2.0
 )
 
@@ -16,7 +17,6 @@ require (
 	github.com/cespare/xxhash/v2 v2.2.0 // indirect
 	github.com/cockroachdb/errors v1.9.0 // indirect
 	github.com/cockroachdb/logtags v0.0.0-20211118104740-dabe8e521a4f // indirect
-	github.com/cockroachdb/pebble v0.0.0-20221021145029-f34af25a0187 // indirect
 	github.com/cockroachdb/redact v1.1.3 // indirect
 	github.com/containerd/cgroups v1.1.0 // indirect
 	github.com/coreos/go-systemd/v22 v22.5.0 // indirect
